@@ -11,11 +11,21 @@ open TT TT.Tree
 
 /-! ### what a format carries -/
 
-/-- label as printed by a writer under the decoration options (errors -> undecorated) -/
+/-- missing head / split information counts as "not a head", "not split" -/
+def fillMarks (t : Tree) : Tree :=
+  t.setFields fun f => { f with edge := some (f.edge.getD DEFAULT_EDGE), head := some (f.head.getD false),
+                                split := some (f.split.getD false) }
+
+/-- label as printed by a writer under the decoration options -/
 def printedLabel (o : OutOpts) (t : Tree) : Str :=
   match getLabel o (t.setFields fun f => { f with edge := some (f.edge.getD DEFAULT_EDGE) }) with
   | .ok l => l
-  | .error _ => t.fields.label
+  | .error _ =>
+    -- a decoration that was asked for applies to the nodes that carry the information: a node without head / split
+    -- information is printed without that decoration (the writers of the unchanged tree refuse such a tree)
+    match getLabel o (fillMarks t) with
+    | .ok l => l
+    | .error _ => t.fields.label
 
 mutual
 /-- the content an export file holds: decorated label, word, lemma (v4 only), morph, edge -/
